@@ -44,6 +44,153 @@ EXHAUSTIVE = {"quick": False, "thorough": True}
 FINDING_CONCAT = "C13-concat-labels"
 
 # --------------------------------------------------------------------------
+# translator: the label arithmetic of the two irregular `concatenate`s, re-read from the source
+# --------------------------------------------------------------------------
+import ast
+import os
+
+GEN_FILE = os.path.join(common.LEAN_DIR, "FDAModel", "Generated", "ConcatLabels.lean")
+TRANSLATOR = {"note": None}
+
+
+def _concat_shape(path, cls):
+    """Recognise, in `cls.concatenate` of the file, the shape
+
+        new = {}                          (or dict())
+        [temp = len(new)]                 <- offset computed ONCE, before the loop over the pieces
+        for el in <pieces>:
+            [temp = len(new)]             <- offset computed PER PIECE
+            for key, v in el.items():
+                new[temp + key] = v       (or key + temp, or plain key)
+        return Cls(new)
+
+    and return ("perpiece" | "once" | "noshift"); raise ValueError when the source has another shape."""
+    tree = ast.parse(open(path).read())
+    fn = None
+    for node in tree.body:
+        if isinstance(node, ast.ClassDef) and node.name == cls:
+            for it in node.body:
+                if isinstance(it, ast.FunctionDef) and it.name == "concatenate":
+                    fn = it
+    if fn is None:
+        raise ValueError(f"{cls}.concatenate not found")
+    body = [b for b in fn.body if not (isinstance(b, ast.Expr) and isinstance(getattr(b, "value", None), ast.Constant))]
+
+    def is_len_of(node, name):
+        return (isinstance(node, ast.Call) and isinstance(node.func, ast.Name) and node.func.id == "len"
+                and len(node.args) == 1 and isinstance(node.args[0], ast.Name) and node.args[0].id == name)
+
+    if len(body) not in (3, 4):
+        raise ValueError("unexpected number of statements")
+    init = body[0]
+    if not (isinstance(init, ast.Assign) and len(init.targets) == 1 and isinstance(init.targets[0], ast.Name)):
+        raise ValueError("no accumulator initialisation")
+    acc = init.targets[0].id
+    v = init.value
+    if not ((isinstance(v, ast.Dict) and not v.keys) or (isinstance(v, ast.Call) and isinstance(v.func, ast.Name) and v.func.id == "dict" and not v.args and not v.keywords)):
+        raise ValueError("accumulator is not an empty dictionary")
+    k = 1
+    once = None
+    if len(body) == 4:
+        st = body[1]
+        if not (isinstance(st, ast.Assign) and isinstance(st.targets[0], ast.Name) and is_len_of(st.value, acc)):
+            raise ValueError("unexpected statement before the loop")
+        once = st.targets[0].id
+        k = 2
+    loop, ret = body[k], body[k + 1]
+    if not (isinstance(loop, ast.For) and isinstance(loop.target, ast.Name) and not loop.orelse):
+        raise ValueError("no loop over the pieces")
+    el = loop.target.id
+    inner_body = list(loop.body)
+    per = None
+    if len(inner_body) == 2 and isinstance(inner_body[0], ast.Assign) and isinstance(inner_body[0].targets[0], ast.Name) and is_len_of(inner_body[0].value, acc):
+        per = inner_body[0].targets[0].id
+        inner_body = inner_body[1:]
+    if len(inner_body) != 1 or not isinstance(inner_body[0], ast.For):
+        raise ValueError("no loop over the entries of a piece")
+    inner = inner_body[0]
+    it = inner.iter
+    if not (isinstance(it, ast.Call) and isinstance(it.func, ast.Attribute) and it.func.attr == "items" and isinstance(it.func.value, ast.Name) and it.func.value.id == el):
+        raise ValueError("inner loop is not over el.items()")
+    if not (isinstance(inner.target, ast.Tuple) and len(inner.target.elts) == 2 and all(isinstance(e, ast.Name) for e in inner.target.elts)):
+        raise ValueError("inner loop target")
+    key, val = inner.target.elts[0].id, inner.target.elts[1].id
+    if len(inner.body) != 1 or not isinstance(inner.body[0], ast.Assign):
+        raise ValueError("inner loop body")
+    asg = inner.body[0]
+    tgt = asg.targets[0]
+    if not (isinstance(tgt, ast.Subscript) and isinstance(tgt.value, ast.Name) and tgt.value.id == acc and isinstance(asg.value, ast.Name) and asg.value.id == val):
+        raise ValueError("assignment into the accumulator")
+    idx = tgt.slice
+    off = per or once
+    if isinstance(idx, ast.Name) and idx.id == key:
+        kind = "noshift"
+    elif (isinstance(idx, ast.BinOp) and isinstance(idx.op, ast.Add) and isinstance(idx.left, ast.Name) and isinstance(idx.right, ast.Name)
+          and {idx.left.id, idx.right.id} == {key, off} and off is not None):
+        kind = "perpiece" if per else "once"
+    else:
+        raise ValueError("label expression")
+    if not (isinstance(ret, ast.Return) and isinstance(ret.value, ast.Call) and isinstance(ret.value.func, ast.Name) and ret.value.func.id == cls
+            and len(ret.value.args) == 1 and isinstance(ret.value.args[0], ast.Name) and ret.value.args[0].id == acc):
+        raise ValueError("return statement")
+    return kind
+
+
+_LEAN_BODY = {
+    "perpiece": "pieces.foldl (fun acc d => setAll acc (shift (acc.length : Int) d)) []",
+    "once": "pieces.foldl (fun acc d => setAll acc (shift ((([] : D α).length : Nat) : Int) d)) []",
+    "noshift": "pieces.foldl (fun acc d => setAll acc d) []",
+}
+
+
+def lean_source(ka, kv):
+    return f"""/-
+GENERATED by `harness/c13.py: translate()` from `FDApy/representation/argvals.py`
+(`IrregularArgvals.concatenate`, recognised shape: {ka}) and `FDApy/representation/values.py`
+(`IrregularValues.concatenate`, recognised shape: {kv}).  Do not edit.
+`C13.concat_source_tie` proves that both are the hand-written `FDA.Select.concatImpl`.
+-/
+import FDAModel.Core.Dict
+
+namespace FDA.Generated.ConcatLabels
+open FDA.Dict
+
+/-- Label arithmetic of `IrregularArgvals.concatenate` as read from the source. -/
+def concatArgvals {{α : Type}} (pieces : List (D α)) : D α :=
+  {_LEAN_BODY[ka]}
+
+/-- Label arithmetic of `IrregularValues.concatenate` as read from the source. -/
+def concatValues {{α : Type}} (pieces : List (D α)) : D α :=
+  {_LEAN_BODY[kv]}
+
+end FDA.Generated.ConcatLabels
+"""
+
+
+def translate():
+    """Regenerate `Generated/ConcatLabels.lean`.  POLICY: a source shape that is not recognised is not an
+    alarm — the last generated file is kept and the evidence says that the tie rests on the correspondence only."""
+    rep = os.path.join(common.REPO, "FDApy", "representation")
+    try:
+        ka = _concat_shape(os.path.join(rep, "argvals.py"), "IrregularArgvals")
+        kv = _concat_shape(os.path.join(rep, "values.py"), "IrregularValues")
+    except (ValueError, SyntaxError, OSError, IndexError, AttributeError) as e:
+        TRANSLATOR["note"] = f"translator: source shape not recognised, tie rests on the correspondence only ({e})"
+        return
+    TRANSLATOR["note"] = f"translator: IrregularArgvals.concatenate = {ka}, IrregularValues.concatenate = {kv}; Generated/ConcatLabels.lean proved equal to concatImpl (C13.concat_source_tie)"
+    src = lean_source(ka, kv)
+    old = open(GEN_FILE).read() if os.path.exists(GEN_FILE) else None
+    if old != src:
+        os.makedirs(os.path.dirname(GEN_FILE), exist_ok=True)
+        with open(GEN_FILE, "w") as fh:
+            fh.write(src)
+
+
+def extra_coverage(cases, impls, models):
+    return {"translator": TRANSLATOR["note"]}
+
+
+# --------------------------------------------------------------------------
 # descriptors <-> real objects (discrete cases: observations are row identifiers)
 # --------------------------------------------------------------------------
 # comp := ["D", [rowids]] | ["B", [rowids]] | ["I", [[label, rowid], ...]]     obj := ["U", comp] | ["M", [comp, ...]]
